@@ -466,7 +466,7 @@ theorem step_reach (s : State) (e : Ev) : Reach s (step s e) := by
     simp only [step]; split
     · exact .one (.refused s)
     · split
-      · exact .refl s
+      · exact .one (.refused s)
       · exact .one (.startBegin s (by simp_all) (by simp_all))
   | resolved ok =>
     simp only [step]; split
@@ -486,7 +486,7 @@ theorem step_reach (s : State) (e : Ev) : Reach s (step s e) := by
     simp only [step]; split
     · exact .one (.refused s)
     · split
-      · exact .refl s
+      · exact .one (.refused s)
       · exact .one (.finishBegin s (by simp_all) (by simp_all))
   | connMade =>
     simp only [step]; split
